@@ -846,7 +846,9 @@ class GitRevisionTree(revisiontree.RevisionTree, GitTree):
                 continue
             obj = store[hexsha]
             if not isinstance(obj, Tree):
-                raise NotTreeError(hexsha)
+                # an ancestor of path is not a directory in this tree, so
+                # there is nothing at path
+                raise NoSuchFile(path)
             try:
                 mode, hexsha = obj[p]
             except KeyError as err:
@@ -1478,6 +1480,30 @@ def changes_from_git_changes(
         target_extras = set()
     if source_extras is None:
         source_extras = set()
+    if specific_files is not None:
+        # A selected directory that stops being a directory takes its old
+        # children with it: they have to be reported too, or the selected
+        # changes would leave entries below something that is not a directory.
+        changes = list(changes)
+        gone_dirs = []
+        for change in changes:
+            old = change.old
+            new = change.new
+            if old is None or old.path is None or not stat.S_ISDIR(old.mode or 0):
+                continue
+            if (
+                new is not None
+                and new.path == old.path
+                and stat.S_ISDIR(new.mode or 0)
+            ):
+                continue
+            oldpath_decoded = decode_git_path(old.path)
+            if oldpath_decoded and osutils.is_inside_or_parent_of_any(
+                specific_files, oldpath_decoded
+            ):
+                gone_dirs.append(oldpath_decoded)
+        if gone_dirs:
+            specific_files = list(specific_files) + gone_dirs
     for change in changes:
         change_type = change.type
         old = change.old
